@@ -196,7 +196,7 @@ Section Run.
         if is_pan k then EPanicked (mkCl (c_env c) held st')
         else if fold_sink then
           match vs with
-          | [VAccv a; VOwn x] => EVal (VAccv (g k a x)) (mkCl (c_env c) held st')
+          | [VAccv a; VOwn x] | [VAccv a; VBorrow x] => EVal (VAccv (g k a x)) (mkCl (c_env c) held st')
           | _ => EStuck
           end
         else EVal (VRet (f k ids)) (mkCl (c_env c) held st')
